@@ -318,7 +318,8 @@ def _ctor_loop(J, f, label, kind, fixed, vary, payloads):
         try:
             m = f(**kw)
         except Exception as e:  # noqa: BLE001
-            J.count("input-rejected-by-constructor:" + type(e).__name__)
+            # every input of the grid is type-correct for the constructor's signature: refusing it is a failure to emit
+            J.bad("emitter-raised", f"raised {type(e).__name__}: {str(e)[:120]}; {ctx}", exc=type(e).__name__)
             continue
         expect: Dict[str, Any] = {}
         if "id" in fixed and fixed["id"] is not None:
@@ -594,7 +595,13 @@ def _run_stdio(cfg) -> Dict[str, Any]:
             async with StdioClient(seams.stdio_params()) as client:
                 _read, write = client.get_streams()
                 for p in payloads:
-                    obj, kind, exp = _stdio_message(kindname, rid, p, method)
+                    try:
+                        obj, kind, exp = _stdio_message(kindname, rid, p, method)
+                    except Exception as e:  # noqa: BLE001
+                        J.count("cases")
+                        J.bad("emitter-raised", f"building the {kindname} message raised {type(e).__name__}: {str(e)[:120]}; "
+                                                f"id={_show(rid)} method={_show(method)} payload={_show(p)}", exc=type(e).__name__)
+                        continue
                     n0 = len(proc.stdin.sends)
                     await write.send(obj)
                     await q.settle()
@@ -1190,7 +1197,7 @@ def run(tier: str, only=None) -> core.Result:
         "top-level result None passed to create_response / JSONRPCMessage.create_response is substituted by {} (documented): recorded, not judged",
         "create_error_response(data=None) may omit 'data' or emit null",
         "BatchProcessor.create_batch_rejection_error() without an id emits id null - allowed for Invalid Request by JSON-RPC 2.0 section 5.1; with an id it is judged like any error",
-        "inputs a constructor itself rejects (e.g. a non-object result for the unified classmethod) emit nothing and are counted only",
+        "every constructor input of the grid is type-correct for its signature (the unified classmethod gets objects only as result), so a constructor that raises is reported (emitter-raised)",
         "helpers: the emitted request must contain every non-empty object passed for a Dict[str, Any] parameter unchanged; how other arguments map to params is not judged",
         "server: handle_message raising for id-less input is C08's subject (nothing is emitted); id echo is C08's subject",
         "process_message_data: an error emitted for a member without an id (a failing notification or a non-object) carries id null - accepted per JSON-RPC 5.1 and recorded; "
